@@ -181,6 +181,8 @@ def extra_line(x):
 def env_text(kind, only=None, extras=True):
     """DIP text defining the nodes (and, for kind 'custom', the custom unit) the spec's atoms refer to."""
     lines = []
+    if only is not None:
+        lines.append("zfill int = 1")      # a reference into a text without any node is C17's subject
     if kind == "custom":
         for cu in META["custom"]:
             lines.append(f"$unit {cu['name']} = {cu['n']} {cu['unit']}")
@@ -535,8 +537,9 @@ def replay_log(rec):
     else:
         res.append(F("unspecified"))
     # drift
+    # (outside the grammar a predicted raise is not compared: the atom parser is more lenient than the model)
     m = rec["mach"]
-    if m != "U":
+    if m != "U" and not (cls == "ill" and m == "E"):
         o = first or obs_log(kind, text)
         okm = (o[0] == "err") if m == "E" else (o[0] == "val" and o[1] == (m == "T"))
         if not okm:
